@@ -5,6 +5,7 @@ package codegen
 
 import (
 	"fmt"
+	"math"
 	"os"
 	"sort"
 	"strings"
@@ -157,17 +158,22 @@ func (h *health) note(c *genCase, f pipeline.Flags) {
 func (h *health) check(t *testing.T, rec *ev.Rec, essential []string) {
 	rec.Set("random_cases", h.random)
 	rec.Set("generator_errors_on_random", h.genErr)
+	// cap on generator rejections of random schemas: 5 % of the campaign. One shard only sees part of
+	// it, so a small shard tests "significantly above 5 %" (two standard deviations of the binomial
+	// count), a large one the plain 5 %. The merged counts are in the evidence file.
+	n, k := float64(h.random), float64(h.genErr)
+	switch {
+	case h.random >= 60 && k > 0.05*n, h.random >= 10 && k > 0.05*n+2*math.Sqrt(n*0.05*0.95):
+		t.Fatalf("INCONCLUSIVE: the generator rejected %d of %d random schemas (cap 5 %%): the random generator leaves the supported subset too often", h.genErr, h.random)
+	case h.random >= 3 && h.genErr > (h.random+1)/2:
+		t.Fatalf("INCONCLUSIVE: the generator rejected %d of %d random schemas", h.genErr, h.random)
+	}
 	if h.random >= 20 {
-		if h.genErr*100 > h.random*5 {
-			t.Fatalf("INCONCLUSIVE: the generator rejected %d of %d random schemas (cap 5 %%): the random generator leaves the supported subset too often", h.genErr, h.random)
-		}
 		for _, e := range essential {
 			if h.seen[e] == 0 {
 				t.Fatalf("INCONCLUSIVE: generator health: class %q never occurred in %d random cases", e, h.random)
 			}
 		}
-	} else if h.random >= 3 && h.genErr > (h.random+1)/2 {
-		t.Fatalf("INCONCLUSIVE: the generator rejected %d of %d random schemas", h.genErr, h.random)
 	}
 }
 
